@@ -391,20 +391,24 @@ class WorkerPool:
             self._perform_spawn(reply)
             # we are concurrent with trigger_shutdown and spawn
             with self._running_lock:
-                if self._shuttingdown:
-                    break
-                # Only clear if _try_send_to_primary_thread has not
-                # yet set the next self._primary_thread_task reply
-                # after waiting for this one to complete.
+                # Only clear (or leave) if _try_send_to_primary_thread has
+                # not yet set the next self._primary_thread_task reply
+                # after waiting for this one to complete; a reply that was
+                # accepted by spawn() must still be executed.
                 if reply is self._primary_thread_task:
+                    if self._shuttingdown:
+                        break
                     primary_thread_task_ready.clear()
 
     def trigger_shutdown(self) -> None:
         with self._running_lock:
             self._shuttingdown = True
-            if self._primary_thread_task_ready is not None:
+            ready = self._primary_thread_task_ready
+            # only wake up an idle primary thread: a set event means that
+            # an accepted task is pending or running, it must not be dropped
+            if ready is not None and not ready.is_set():
                 self._primary_thread_task = None
-                self._primary_thread_task_ready.set()
+                ready.set()
 
     def active_count(self) -> int:
         return len(self._running)
